@@ -717,13 +717,14 @@ theorem svcValue_post (key : Nat) (d : Bytes) (v : SvcVal) (hd : Bytes.WF d) (h 
   by_cases h3 : key = 3
   · rw [if_pos h3] at h
     match d, hd, h with
-    | a :: b :: rest, hd, h =>
+    | [a, b], hd, h =>
       simp only [Outcome.ok.injEq] at h
       subst h
       have ha := hd a (by simp); have hb := hd b (by simp)
       exact ⟨⟨h3, by omega⟩, by simp [svcValBytes, u16b]⟩
     | [], _, h => simp at h
     | [_], _, h => simp at h
+    | _ :: _ :: _ :: _, _, h => simp at h
   rw [if_neg h3] at h
   by_cases h4 : key = 4
   · rw [if_pos h4] at h
